@@ -127,7 +127,10 @@ func learnBool(st *PathState, cond ssa.Value, truth bool) {
 		return
 	}
 	if _, isPhi := cond.(*ssa.Phi); isPhi {
-		return // phis are re-bound by enter; their selected operand is tracked separately
+		// a computed boolean (`raced := a && b; if !raced { raced = c && d }; if !raced {…}`): the branch decided the phi's
+		// value for as long as the phi is not re-bound (enter deletes the fact when the block is entered again)
+		st.consts[cond] = BoolConst(truth)
+		return
 	}
 	if !testedTwice(cond) {
 		return
@@ -412,14 +415,28 @@ func (q *PathQ) find() (witness []string, found bool) {
 		initTracked(st)
 		push(st)
 	}
+	// what the branches that dominate a start point decided holds on every path from it
+	learnDominating := func(st *PathState, b *ssa.BasicBlock) {
+		if q.light || q.NoFold {
+			return
+		}
+		for _, f := range FactsAt(b) {
+			if f.V == nil {
+				continue
+			}
+			learnNil(st, f.V, f.True)
+		}
+	}
 	for _, in := range q.StartAfter {
 		st := mk(in.Block(), IndexInBlock(in)+1, nil, "after "+shortInstr(in))
 		initTracked(st)
+		learnDominating(st, in.Block())
 		push(st)
 	}
 	for _, e := range q.StartEdges {
 		st := mk(e.To, 0, nil, fmt.Sprintf("edge b%d->b%d", e.From.Index, e.To.Index))
 		initTracked(st)
+		learnDominating(st, e.From)
 		if len(e.From.Succs) == 2 && e.From.Succs[0] != e.From.Succs[1] && !q.NoFold {
 			if ifi, ok := e.From.Instrs[len(e.From.Instrs)-1].(*ssa.If); ok {
 				learnNil(st, ifi.Cond, e.To == e.From.Succs[0])
